@@ -67,3 +67,27 @@ PROPS["C12"] = {
     "outside_claim": ["the select loop of inventoryService.run (event interleavings) and the commit-level float kernel are separate harnesses", "metrics", "Kubernetes inventory fetch"],
     "assumptions": ["node inventories carry non-nil cpu/memory/storage"],
 }
+
+C17_Q = ["Harness_C17_list_1", "Harness_C17_list_2", "Harness_C17_create_0", "Harness_C17_create_1", "Harness_C17_revoke_1", "Harness_C17_revoke_2"]
+PROPS["C17"] = {
+    "jobs": [{
+        "pkg": "x/cert/keeper",
+        "files": ["harness/C17/certs.go"],
+        "shims": ["shim.go.tmpl", "shim_chain.go.tmpl", "shim_cert.go.tmpl"],
+        "quick": C17_Q,
+        "thorough": C17_Q + ["Harness_C17_list_3", "Harness_C17_create_2", "Harness_C17_list_1_wide", "Harness_C17_list_2_wide", "Harness_C17_create_1_wide", "Harness_C17_revoke_1_wide"],
+        "opts": {"timeout": 20000, "maxbigbytes": 9},
+    }],
+    "bounds": {
+        "quick": "pre-state: 0..2 stored certificates, owners from {A,B}, serial any integer of 0..3 bytes (0, 255, 256, 65535, 65536, 2^24-1 are inside), state valid/revoked; one create or revoke message with symbolic serial, signer A/B, certificate CN A/B/not-an-address; then all 9 listing/lookup paths of the keeper",
+        "thorough": "3 stored certificates, serials up to 9 bytes (covers 2^64)",
+    },
+    "stubs": COMMON_STUBS + [
+        "KV store -> ordered association list with bytewise order decided by the solver; iterators are snapshots; gas ignored",
+        "codec Marshal/Unmarshal -> faithful deep copy (protobuf wire format not encoded)",
+        "pem.Decode / x509.ParseCertificate -> certificate tokens carrying (CN, serial); natively real self-signed certificates are generated",
+        "bech32 -> bijection 'addr:'+20 bytes",
+    ],
+    "outside_claim": ["X.509/PEM parsing", "gRPC querier pagination (FilteredPaginate offsets/limits)", "serials longer than the byte bound (2^159 is stated outside: 20 bytes)"],
+    "assumptions": ["INV: stored certificates are unique per (owner, serial) — established by the create step checked here", "the signer of a message is the account in its Owner / ID.Owner field (C06)"],
+}
